@@ -63,3 +63,22 @@ def implOKB (m : NNet) : Bool :=
       (!(decide ((m.net.node p).ins.length > 0) && decide ((m.net.node p).outs.length > 0)) || (m.net.node p).isFork)
 
 end KV.Transform
+
+namespace KV.Transform
+/-- every substitution that `resolve_tlib_cells` performs along the key list is a regular use (`regularB`) of a
+    well-formed implementation satisfying `implOKB`, the substituted node being neither a port nor a fork, and none of
+    them raises (decidable: computed along the loop of `resolveCells`) -/
+def resolveOKB (lib : Lib) : List (String × Bool) → NNet → Bool
+  | [], _ => true
+  | key :: rest, cur =>
+    let i := cur.lookup key
+    if i < cur.net.nodes.size then
+      match lib.find (cur.net.node i).kind with
+      | some impl =>
+        impl.wf && implOKB impl && regularB cur i impl && !(cur.net.io.contains i) && !((cur.net.node i).isFork) &&
+          (match substitute cur i impl with
+           | some nxt => resolveOKB lib rest nxt
+           | none => false)
+      | none => resolveOKB lib rest cur
+    else resolveOKB lib rest cur
+end KV.Transform
